@@ -21,6 +21,7 @@ pub mod c17_cli;
 pub mod c18;
 pub mod c19;
 pub mod c20;
+pub mod realfs;
 
 pub fn run(id: &str, e: &Engine) -> bool {
 	match id {
